@@ -262,6 +262,48 @@ def lock_cycle():
     return edges, None
 
 
+def lock_selftest(ctx):
+    """thorough tier: the lock-order obligation can fail - the translator run on a scratch copy of the working tree with the recorded
+    lock-order inversion (seeded/C16-c) applied must yield a relation with a cycle. Returns a description, or None when not run."""
+    import re
+    import shutil
+    import tempfile
+    patch = os.path.join(C.VERIF, "seeded", "C16-c", "patch.diff")
+    if not os.path.exists(patch):
+        return None
+    tmp = tempfile.mkdtemp(prefix="c16_lock_selftest_")
+    try:
+        # the working tree's Go sources of the two packages (what the translator reads)
+        for sub in ("", "toxics"):
+            os.makedirs(os.path.join(tmp, sub), exist_ok=True)
+            for f in os.listdir(os.path.join(C.REPO, sub)):
+                if f.endswith(".go"):
+                    shutil.copy(os.path.join(C.REPO, sub, f), os.path.join(tmp, sub, f))
+        rc, o = C.sh(["patch", "-p1", "-s", "-d", tmp, "-i", patch], timeout=60)
+        if rc != 0:
+            return "not run: the recorded inversion no longer applies to the working tree"
+        rc, o = C.sh([C.go_build_extract(ctx), "-repo", tmp], env=C.GOENV, timeout=120)
+        m = re.search(r"Definition lock_edges .*?:= \[(.*?)\]\.", o, re.S)
+        edges = re.findall(r'\("([^"]*)"%string, "([^"]*)"%string\)', m.group(1)) if m else []
+        succ = {}
+        for a, b in edges:
+            succ.setdefault(a, set()).add(b)
+        # cycle <=> some node reaches itself
+        def reach(a):
+            seen, todo = set(), list(succ.get(a, ()))
+            while todo:
+                x = todo.pop()
+                if x not in seen:
+                    seen.add(x)
+                    todo.extend(succ.get(x, ()))
+            return seen
+        cyc = sorted(a for a in succ if a in reach(a))
+        return "with the recorded lock-order inversion applied to a scratch copy the regenerated relation has a cycle through %s" % ", ".join(cyc) if cyc else \
+               "FAILED: the recorded lock-order inversion applied to a scratch copy yields an acyclic relation"
+    finally:
+        shutil.rmtree(tmp, ignore_errors=True)
+
+
 def run(ctx):
     verdict = C.Verdict(ctx)
     rng = C.Rng(ctx.seed).fork(PID)
@@ -352,6 +394,7 @@ def run(ctx):
                 "on fresh servers; a 10 s watchdog reports requests that never return; plus the lock-up witness under virtual time; "
                 "distinct = batches, evaluations = rounds",
         "traces_validated_against_impl": nrounds, "input_distribution": stats, "failing_batches": len(fails),
+        "lock_order_selftest": (lock_selftest(ctx) if ctx.tier == "thorough" else "thorough tier only"),
         "samples": [{"family": cases[0]["family"], "batch": cases[0]["batch"][:3], "round0": (results[0][0] if isinstance(results[0], list) else None)}],
     }
     C.write_evidence(ctx, cov, ["real lock fairness and the Go scheduler decide which interleavings occur in a run; the theorems cover every order of the critical sections",
